@@ -44,6 +44,8 @@ opcodes! {
     BorrowCloneArc = "borrow_clone_arc", "";
     OffCloneArc = "off_clone_arc", "";
     WithArcClone = "with_arc_clone", "";
+    CloneShared = "clone_shared", "";
+    ReadShared = "read_shared", "";
     // ---- count-neutral conversions (a=slot)
     ToOffset = "to_offset", "C11";
     FromOffset = "from_offset", "C11";
@@ -164,6 +166,9 @@ pub struct Program {
 
 pub const NS: usize = 6; // slots per thread
 pub const NMAIL: usize = 2;
+/// slots shared (read-only) by all threads of a parallel section: global indices SHARED_BASE..
+pub const NSHARED: usize = 4;
+pub const SHARED_BASE: usize = 4 * NS;
 
 impl Program {
     pub fn nthreads(&self) -> usize {
